@@ -17,9 +17,13 @@ EXTENDS Integers, Sequences, FiniteSets, SeqX
 CONSTANTS MaxDepth, Ratios, Refinements
 VARIABLES cfg, hist
 vars == <<cfg, hist>>
-Cfg0(b) == [base |-> b, refs |-> {}, scale |-> 0, rough |-> 0, pa |-> 0, others |-> <<>>, trackedFirst |-> TRUE, perPointG |-> FALSE]
+Cfg0(b) == [base |-> b, refs |-> {}, scale |-> 0, rough |-> 0, pa |-> 0, others |-> <<>>, trackedFirst |-> TRUE, perPointG |-> FALSE, layout |-> "plain"]
 Init == \E b \in 1..4 : cfg = Cfg0(b) /\ hist = <<>>      \* base 4: severe loading (failure within the two HCM passes)
-Relation(a) == CASE a \in {"AddPoint", "DropPoint", "MoveTracked", "ToggleG", "Refine"} -> "same"
+(* how the same assessment is handed over: node ids 0..n-1 in load-step-major rows ("plain"), arbitrary unsorted node ids, rows ordered node by
+   node, per-point G labelled differently from the node ids (only the ORDER of the G values is documented to count), a single-point Series
+   whose index labels are not ascending (as left behind by splicing samples in with pd.concat) *)
+Layouts == {"plain", "scattered_ids", "node_major", "g_labels", "spliced_index"}
+Relation(a) == CASE a \in {"AddPoint", "DropPoint", "MoveTracked", "ToggleG", "Refine", "Relayout"} -> "same"
                  [] a \in {"ScaleUp", "Roughen", "TightenPA"} -> "notlarger"
 Step(a, arg, c2) == cfg' = c2 /\ hist' = Append(hist, <<a, arg, Relation(a)>>)
 Next ==
@@ -29,10 +33,11 @@ Next ==
      \/ cfg.others # <<>> /\ Step("MoveTracked", 0, [cfg EXCEPT !.trackedFirst = ~@])
      \/ cfg.others # <<>> /\ Step("ToggleG", 0, [cfg EXCEPT !.perPointG = ~@])
      \/ \E k \in Refinements \ cfg.refs : Step("Refine", k, [cfg EXCEPT !.refs = @ \cup {k}])
+     \/ \E y \in Layouts \ {cfg.layout} : Step("Relayout", y, [cfg EXCEPT !.layout = y])
      \/ cfg.scale < 2 /\ Step("ScaleUp", 0, [cfg EXCEPT !.scale = @ + 1])
      \/ cfg.rough < 2 /\ Step("Roughen", 0, [cfg EXCEPT !.rough = @ + 1])
      \/ cfg.pa < 2 /\ Step("TightenPA", 0, [cfg EXCEPT !.pa = @ + 1])
 Spec == Init /\ [][Next]_vars
 (* structural sanity of the configuration graph *)
-TypeOK == cfg.scale \in 0..2 /\ cfg.rough \in 0..2 /\ cfg.pa \in 0..2 /\ Len(cfg.others) <= 2 /\ cfg.refs \subseteq Refinements
+TypeOK == cfg.scale \in 0..2 /\ cfg.rough \in 0..2 /\ cfg.pa \in 0..2 /\ Len(cfg.others) <= 2 /\ cfg.refs \subseteq Refinements /\ cfg.layout \in Layouts
 =============================================================================
